@@ -109,6 +109,29 @@ fn main() {
             }
             println!("{} of {} rejected", bad, n);
         }
+        "stages" => {
+            let id = arg(&args, "--prop").expect("--prop");
+            let p = find(&id);
+            for s in &p.stages {
+                if let runner::StageKind::Random { max_len, .. } = &s.kind {
+                    println!("{} {}", s.name, max_len(Tier::Thorough));
+                }
+            }
+            if p.text_check.is_some() {
+                println!("@text 4096");
+            }
+        }
+        "corpus" => {
+            let id = arg(&args, "--prop").expect("--prop");
+            let seed = arg(&args, "--seed").or_else(|| std::env::var("VERIF_SEED").ok()).and_then(|s| s.trim().parse::<u64>().ok()).unwrap_or(20260921);
+            let n = arg(&args, "--n").and_then(|s| s.parse().ok()).unwrap_or(200);
+            std::process::exit(runner::write_corpus(find(&id), &arg(&args, "--stage").unwrap_or_default(), seed, n, &arg(&args, "--out").expect("--out")));
+        }
+        "confirm" => {
+            let id = arg(&args, "--prop").expect("--prop");
+            let tier = Tier::parse(&arg(&args, "--tier").unwrap_or_else(|| "thorough".into()));
+            std::process::exit(runner::confirm_raw(find(&id), tier, &arg(&args, "--stage").unwrap_or_default(), &arg(&args, "--raw").expect("--raw"), &exe));
+        }
         "aux" => {
             // auxiliary child entry points used by custom stages
             let id = arg(&args, "--prop").expect("--prop");
